@@ -110,6 +110,8 @@ def codegen_eval(run, model, tc):
         return pureeval.Obj(__name__=n)
     from sa.util import module_level_names
     modnames = module_level_names(tc.module)
+    # module-level functions the text generator may name (`handled.__name__`) are stand-ins carrying their name
+    modfuncs = {st.name: pureeval.Obj(__name__=st.name) for st in tc.module.tree.body if isinstance(st, ast.FunctionDef)}
     life = ('ENTRY_SIGNAL', 'INIT_SIGNAL', 'EXIT_SIGNAL')
     orders = [[], ['A'], ['A', 'B'], ['B', 'A'], ['B', 'C', 'A']]
     n_eval, bad = 0, None
@@ -128,7 +130,7 @@ def codegen_eval(run, model, tc):
                     for arg in ('s1', cb('s1')):
                         n_eval += 1
                         try:
-                            text = pureeval.call(tc.node, [me, arg], globals_={'signals': sig, 'namedtuple': collections.namedtuple, 'None': None}, mutable=True, strict_locals=True, module_names=modnames)
+                            text = pureeval.call(tc.node, [me, arg], globals_=dict(modfuncs, signals=sig, namedtuple=collections.namedtuple), mutable=True, strict_locals=True, module_names=modnames)
                         except pureeval.Raised as ex:
                             text = None
                             probs = ['to_code raises %s' % ex.what]
@@ -394,8 +396,29 @@ def check(run, model, tier):
              '' if ok else 'to_code reads %s; the runtime uses %s and %s: the generated text is built from a different table than the chart runs on' % (sorted(regs_used(tc)), LK, PR), obligation=True)
     # key structure: writers use <fn>.__name__ and the signal; readers use the name (string) and e.signal
     wkeys = [norm(n.slice) for n in walk_shallow(rs.node) if isinstance(n, ast.Subscript) and isinstance(n.ctx, ast.Store)]
-    ok = any(k == rs.params[2] for k in wkeys) and any('.__name__' in norm(n) for n in walk_shallow(rs.node) if isinstance(n, ast.Subscript))
+    from sa.util import expand_locals as _xl
+    ok = any(k == rs.params[2] for k in wkeys) and any('.__name__' in norm(_xl(n, rs.node, params=rs.params)) for n in walk_shallow(rs.node) if isinstance(n, ast.Subscript))
     run.inst('TABLE.registries', rs, 'callbacks stored under [state name][signal]', ok, 'register_signal_callback stores under %s' % wkeys, obligation=True)
+    # the registration updates the table of the state in place: one item store.  Copying the state's table, adding to the copy and storing the copy back is a
+    # read-modify-write of shared state with nothing that makes it atomic - two registrations for the same state (charts are built from several threads: the
+    # active object registers from its own thread, the application from another) that overlap lose one handler
+    run.rule('TABLE.update-in-place', 'register_signal_callback adds to the state\'s table in place (or under a lock): no unlocked copy / modify / store-back of a registry entry')
+    rdefs_ = local_defs(rs.node)
+    rmw = []
+    for n in walk_shallow(rs.node):
+        if isinstance(n, ast.Assign) and any(isinstance(t, ast.Subscript) and (dotted(t.value) or '') == rs.params[0] + '.' + LK.split('.')[-1] for t in n.targets) and isinstance(n.value, ast.Name):
+            ds = [d for d in rdefs_.get(n.value.id, []) if isinstance(d, ast.AST)]
+            copies = [d for d in ds if isinstance(d, ast.Call) and norm(d.func) in ('dict', 'copy', 'copy.copy', 'OrderedDict') and LK.split('.')[-1] in norm(d)
+                      or (isinstance(d, ast.Call) and isinstance(d.func, ast.Attribute) and d.func.attr == 'copy' and LK.split('.')[-1] in norm(d))
+                      or (isinstance(d, ast.Dict) and any(k is None for k in d.keys) and LK.split('.')[-1] in norm(d))]
+            if copies:
+                rmw.append((n, copies[0]))
+    locked = any(isinstance(w_, ast.With) for w_ in walk_shallow(rs.node))
+    okr = not rmw or locked
+    run.inst('TABLE.update-in-place', rs, 'no unlocked copy/modify/store-back of a registry entry', okr,
+             '' if okr else ('register_signal_callback builds a copy of the state\'s table (%s), adds to the copy and stores it back (%s) without a lock: when two registrations for the same '
+                             'state overlap, the one that stores last overwrites the other\'s handler - the chart then lets that event bubble to the parent, unlike the hand-written chart'
+                             % (norm(rmw[0][1])[:70], norm(rmw[0][0])[:70])), node=rmw[0][0] if rmw else None, obligation=True)
     # the stored callback is the very object the caller registered (a bound method keeps its own `self`), and the template calls it by its kind
     fnp = rs.params[3] if len(rs.params) > 3 else None
     stores_ = [n for n in walk_shallow(rs.node) if isinstance(n, ast.Assign) and any(isinstance(t, ast.Subscript) and norm(t.slice) == rs.params[2] for t in n.targets)]
